@@ -8,6 +8,13 @@ Workloads: Euler grid with beta exactly at / next to the poles and alpha+-gamma 
 down directly as matrices (Rz(4.5), axis turns, the 24 signed permutations and their 48 lifts), Haar-random elements,
 batches of shapes (k,), (k,l), (1,), (k,1,l) mixing generic and degenerate members; work-buffer histories (one array object
 passed, updated in place by matmul(out=)/assignment/negation/a degenerate rotation, passed again with the same or another j2).
+'regime' shard (round-4 lesson): betas between the library threshold and the generic regime (3e-8 .. 1e-2 from either pole), exact
+elements known only up to dense rounding noise (1e-15 .. 5e-14) and long products landing on them, |angle| up to 50 on the angle entry of
+get_su2_irrep (beta outside [0,pi] included), exactly one degenerate member at each position of a generic batch and the converse, storage
+variants (Fortran order, strided / reversed / transposed views, read-only, complex-typed rotation), the zero_eps option (1e-12, 1e-5, 1e-3;
+positional and keyword) with tolerances scaled by it, return_matd=True on the matrix entry, results edited in place by the caller then asked
+again. Consumers of the CG table (get_irreducible_tensor_operator, get_irreducible_hermitian_matrix_basis, all option combinations) have
+their own contracts against the reference ladder operators.
 Every contract snapshots its array arguments before the call and judges the result against that snapshot; a per-object
 history (previous contents of the same ndarray) names stale answers `*/stale-after-inplace-update`.
 """
@@ -23,12 +30,13 @@ RULE = ('cases = (operation, group element(s) or spin labels): every point of th
         '(j1,j2) with j1+j2<=4 (quick) / <=6 (thorough). A case is non-trivial when the rotation is not the identity '
         '(|R-1|>1e-6, resp. U != +-1) or, for spin labels, when some j>0; distinct by digest of (operation, matrix bytes). '
         'Histories: (first contents, in-place update, second contents, j2 of first/second call, number of other matrices in between) '
-        'on one array object, single and batched')
+        'on one array object, single and batched. Regime shard: (operation, regime tag, matrix bytes) with the regime one of near-pole beta, dense rounding noise, '
+        'long product, large angles, one-degenerate-member position, storage variant, zero_eps value, return_matd on the matrix entry, result-edit history')
 EXHAUSTIVE = {'quick': True, 'thorough': True}
 EXHAUSTIVE_DOMAINS = {
     'quick': ['all 24 signed 3x3 permutation matrices with det +1 (single calls, one batch, all 576 ordered products)',
               'all 48 elements of the binary octahedral group in SU(2) (all 2304 ordered pairs for R(U1U2) and D^j(U1U2), j2=0..10)',
-              'angular momentum j2=0..10 (11)', 'Clebsch-Gordan tables for all 45 pairs (j1d,j2d) with j1d+j2d<=8',
+              'angular momentum j2=0..10 (11)', 'Clebsch-Gordan tables for all 45 pairs (j1d,j2d) with j1d+j2d<=8 and the 13 boundary pairs j1d+j2d=12',
               'Euler grid: 8 pole/near-pole beta values {0, pi, 1e-9, pi-1e-9, 1e-6, pi-1e-6, 1e-4, pi-1e-4} + 3 generic x 64 (alpha+gamma, alpha-gamma) combinations, SO(3) and SU(2) (gamma and gamma+2pi)'],
     'thorough': ['all 24 signed 3x3 permutation matrices with det +1', 'all 48 binary octahedral elements, all 2304 ordered pairs, j2=0..10',
                  'angular momentum j2=0..20 (21)', 'Clebsch-Gordan tables for all 91 pairs (j1d,j2d) with j1d+j2d<=12 (+ 24 larger pairs up to 16)',
@@ -44,6 +52,10 @@ ASSUMPTIONS = [
     'the global sign is free only for so3_to_su2 (documented "ret, -ret"); su2_to_angle documents gamma in (0,4pi), so its round trip and D^j of a '
     'matrix argument are required with the exact sign everywhere, beta=pi included',
     'inputs are float64/complex128 group elements accurate to 1e-12; float32 inputs are not generated',
+    'a caller-supplied zero_eps > 1e-7 widens the pole tolerance to 10*zero_eps within 100*zero_eps of a pole (answering with the pole rotation there is '
+    'the documented purpose of the option); zero_eps < 1e-7 never tightens it (generic-branch conditioning eps/sin(beta)); empty batches are not generated',
+    'get_irreducible_tensor_operator uses T^k_q = (-1)^q x (Condon-Shortley spherical tensor), i.e. [J+-,T_q] = -sqrt(k(k+1)-q(q+-1)) T_{q+-1}, normalised '
+    'Tr(T^+T) = 2S+1: measured on the unchanged tree for S_double=1..10; the convention-free clauses ([Jz,T_q]=qT_q, Casimir k(k+1), orthogonality, adjoint) have their own keys',
 ]
 P_LIE = 'numqi.group._lie.'
 P_CG = 'numqi.matrix_space._clebsch_gordan.'
@@ -54,7 +66,9 @@ DECIDING = [P_LIE + n for n in ('so3_to_angle', 'su2_to_angle', 'angle_to_so3', 
     'su2_to_angle@sign-at-beta-pi', 'history@work-buffer-updated-in-place', 'get_su2_irrep@argument-updated-in-place',
     'su2_to_angle@argument-updated-in-place', 'su2_to_so3@argument-updated-in-place', 'so3_to_angle@argument-updated-in-place',
     'so3_to_su2@argument-updated-in-place', 'get_su2_irrep@angle-array-updated-in-place',
-    'get_su2_irrep@pole', 'get_su2_irrep@half-integer', 'irrep/homomorphism', 'su2_to_so3/homomorphism', 'cg/intertwining']
+    'get_su2_irrep@pole', 'get_su2_irrep@half-integer', 'irrep/homomorphism', 'su2_to_so3/homomorphism', 'cg/intertwining',
+    'get_su2_irrep@matrix-return_matd', 'zero_eps@non-default', 'history@result-edited-then-called-again',
+    P_CG + 'get_irreducible_tensor_operator', P_CG + 'get_irreducible_hermitian_matrix_basis']
 TECHNIQUE = 'contracts on the real functions + reference-model comparison (runtime monitoring)'
 
 TOL_POLE = 1e-6      # decision threshold at / next to the poles (library threshold zero_eps=1e-7 gives O(beta) differences)
@@ -62,10 +76,16 @@ TOL_GEN = 1e-9       # further than POLE_ZONE from a pole
 POLE_ZONE = 1e-5
 ADMISSIBLE = 1e-12   # inputs must be group elements to this accuracy to be judged
 MAX_ELEMENTWISE = 48
+# GENUINE-DEFECT-CANDIDATE (this one history is excluded from the workload; same class as the cached Gell-Mann / S_n tables of C16 / C14):
+# get_clebsch_gordan_coeffient hands out its lru_cached list and writable arrays; a caller who edits the returned table in place
+# (t = get_clebsch_gordan_coeffient(1,1); t[0][1] *= 3) gets the edited coefficients from every later call and from
+# get_irreducible_tensor_operator / get_irreducible_hermitian_matrix_basis. With the fix reverted cg/orthogonality, cg/completeness,
+# cg/intertwining, cg/selection-rule and cg/consumer/tensor-operator/* fire.
+CG_TABLE_EDITED_BY_CALLER = True  # the defect was repaired in numqi (fix: 2cb46d5); the history is driven in every run
 
 
 def shards(tier, seed):
-    ret = [{'name': 'grid-so3'}, {'name': 'grid-su2'}, {'name': 'cube'}, {'name': 'random'}, {'name': 'irrep'}, {'name': 'angmom-cg'}, {'name': 'workbuf'}]
+    ret = [{'name': 'grid-so3'}, {'name': 'grid-su2'}, {'name': 'cube'}, {'name': 'random'}, {'name': 'irrep'}, {'name': 'angmom-cg'}, {'name': 'workbuf'}, {'name': 'regime'}]
     if tier == 'thorough':
         ret += [{'name': f'random-{i}', 'part': i} for i in range(1, 5)]
         ret += [{'name': f'irrep-{i}', 'part': i} for i in range(1, 4)]
@@ -73,9 +93,22 @@ def shards(tier, seed):
     return ret
 
 
-def _tol(dist):
-    """per-element tolerance from the distance of beta to the nearest pole."""
-    return np.where(np.asarray(dist) < POLE_ZONE, TOL_POLE, TOL_GEN)
+def _zero_eps(x):
+    """the zero_eps option as a float (default when absent / not a positive finite number)."""
+    try:
+        x = float(x)
+    except Exception:
+        return 1e-7
+    return x if (math.isfinite(x) and x > 0) else 1e-7
+
+
+def _tol(dist, zero_eps=1e-7):
+    """per-element tolerance from the distance of beta to the nearest pole. With the default zero_eps=1e-7: 1e-6 within 1e-5 of a
+    pole, 1e-9 outside. A caller-supplied larger threshold widens both in proportion (within zero_eps of a pole the library
+    answers with the pole rotation, an O(zero_eps) difference by design); a smaller one never tightens them, because the generic
+    branch next to a pole has conditioning eps/sin(beta) (measured 2e-7 at beta=1e-9)."""
+    ze = _zero_eps(zero_eps)
+    return np.where(np.asarray(dist) < max(POLE_ZONE, 100 * ze), max(TOL_POLE, 10 * ze), TOL_GEN)
 
 
 def _region(beta):
@@ -184,7 +217,10 @@ def install(ctx, numqi):
             ctx.inconclusive('so3_to_angle: input not in SO(3) to 1e-12', int((~adm).sum()))
         beta = rs.polar_so3(flat)
         reg = _region(beta)
-        tol = _tol(rs.pole_distance(beta))
+        zero_eps = c.arg(1, 'zero_eps', 1e-7)
+        if _zero_eps(zero_eps) != 1e-7:
+            ctx.hit('zero_eps@non-default')
+        tol = _tol(rs.pole_distance(beta), zero_eps)
         rebuilt = np.asarray(o_angle_to_so3(*ang))
         if rebuilt.shape != flat.shape:
             ctx.check(False, 'so3_to_angle/roundtrip/shape', 'angle_to_so3(*so3_to_angle(R)) has the wrong shape', {'got': rebuilt.shape})
@@ -205,7 +241,6 @@ def install(ctx, numqi):
             kinds = set(reg[adm].tolist())
             if len(kinds & {0, 1, 2}) >= 1 and 3 in kinds:
                 ctx.hit('so3_to_angle@mixed-batch')
-            zero_eps = c.arg(1, 'zero_eps', 1e-7)
             for i in _pick(N):
                 if not adm[i]:
                     continue
@@ -242,7 +277,10 @@ def install(ctx, numqi):
             ctx.inconclusive('su2_to_angle: input not in SU(2) to 1e-12', int((~adm).sum()))
         beta = rs.polar_su2(flat)
         reg = _region(beta)
-        tol = _tol(rs.pole_distance(beta))
+        zero_eps = c.arg(1, 'zero_eps', 1e-7)
+        if _zero_eps(zero_eps) != 1e-7:
+            ctx.hit('zero_eps@non-default')
+        tol = _tol(rs.pole_distance(beta), zero_eps)
         rebuilt = np.asarray(o_angle_to_su2(*ang))
         if rebuilt.shape != flat.shape:
             ctx.check(False, 'su2_to_angle/roundtrip/shape', 'angle_to_su2(*su2_to_angle(U)) has the wrong shape', {'got': rebuilt.shape})
@@ -277,7 +315,6 @@ def install(ctx, numqi):
             kinds = set(reg[adm].tolist())
             if len(kinds & {0, 1, 2}) >= 1 and 3 in kinds:
                 ctx.hit('su2_to_angle@mixed-batch')
-            zero_eps = c.arg(1, 'zero_eps', 1e-7)
             for i in _pick(N):
                 if not adm[i]:
                     continue
@@ -370,6 +407,8 @@ def install(ctx, numqi):
                   lambda: {'U': flat[k], 'got': R[k], 'expected': rs.cover(flat[k]), 'err': err[k]})
         idx = _pick(flat.shape[0])
         zero_eps = c.arg(1, 'zero_eps', 1e-7)
+        if _zero_eps(zero_eps) != 1e-7:
+            ctx.hit('zero_eps@non-default')
         try:
             Rm = np.asarray(o_su2_to_so3(-flat[idx], zero_eps))
             e2 = float(_maxerr(Rm, R[idx]).max())
@@ -414,7 +453,10 @@ def install(ctx, numqi):
         k = int(np.argmax(dfc))
         ctx.check(dfc[k] <= TOL_GEN, 'so3_to_su2/in-SU2', 'so3_to_su2(R) is not unitary with determinant 1', lambda: {'R': flat[k], 'U': U[k], 'defect': dfc[k]})
         beta = rs.polar_so3(flat)
-        tol = _tol(rs.pole_distance(beta))
+        zero_eps = c.arg(1, 'zero_eps', 1e-7)
+        if _zero_eps(zero_eps) != 1e-7:
+            ctx.hit('zero_eps@non-default')
+        tol = _tol(rs.pole_distance(beta), zero_eps)
         err = _maxerr(rs.cover(U), flat)
         k = int(np.argmax(err / tol))
         note('so3_to_su2_covers', REGION_NAME[_region(beta[k])], err[k])
@@ -533,11 +575,17 @@ def install(ctx, numqi):
             md = np.asarray(matd)
             ok = md.shape == res.shape and not np.iscomplexobj(md)
             ctx.check(ok, 'irrep/matd-shape', 'matd must be real with the shape of D', {'got': list(md.shape), 'dtype': str(md.dtype)})
-            if ok and form == 'angles':
+            if ok:
+                ctx.check(not np.shares_memory(md, res), 'irrep/matd-aliases-D', 'the returned small-d matrix shares memory with the returned D (editing one edits the other)', {'j2': j2, 'form': form})
+            if ok:
+                # matrix form: the polar angle is read off the matrix by the reference (|U01|, |U00|; accurate at both poles)
+                bref = B[idx] if form == 'angles' else beta
+                if form == 'matrix':
+                    ctx.hit('get_su2_irrep@matrix-return_matd')
                 mds = md.reshape(-1, n, n)[idx]
-                refd = rs.irrep_batch(j2, rs.euler_su2(0 * B[idx], B[idx], 0 * B[idx]))
+                refd = rs.irrep_batch(j2, rs.euler_su2(0 * bref, bref, 0 * bref))
                 ctx.check(bool(np.all(_maxerr(mds, refd) <= TOL_GEN)), 'irrep/matd-value', 'Wigner small-d matrix differs from D^j(exp(-i beta s_y/2))',
-                          lambda: {'j2': j2, 'beta': B[idx], 'err': float(_maxerr(mds, refd).max())})
+                          lambda: {'j2': j2, 'form': form, 'beta': bref, 'err': float(_maxerr(mds, refd).max())})
         if D.shape[0] > 1 and form == 'matrix':
             for t, i in enumerate(idx[:12]):
                 try:
@@ -623,12 +671,117 @@ def install(ctx, numqi):
 
     ctx.attach(M, 'get_clebsch_gordan_coeffient', post=post_cg)
 
+    # ------------------------------------------------------------------ consumers of the CG table: irreducible tensor operators
+    def casimir(J, X):
+        return sum(Ja @ (Ja @ X - X @ Ja) - (Ja @ X - X @ Ja) @ Ja for Ja in J)
+
+    def post_tensor_op(c):
+        """T^k_q, k=0..2S, q=k..-k on the spin-S space (basis m=S..-S): [Jz,T_q]=q T_q, [J+-,T_q]= s sqrt(k(k+1)-q(q+-1)) T_{q+-1} with
+        the library's phase convention s=-1 (its T_q is (-1)^q times the Condon-Shortley one; measured on the unchanged tree and
+        recorded in ASSUMPTIONS), T_q^+ = (-1)^q T_{-q}, Tr(T^k_q^+ T^k'_q') = (2S+1) delta delta, T^0_0 = identity. J from the reference."""
+        if c.exc is not None:
+            return
+        try:
+            S = int(c.arg(0, 'S_double'))
+        except Exception:
+            return
+        if S < 1 or S > 12:
+            return
+        res = c.result
+        n = S + 1
+        ok = isinstance(res, list) and len(res) == n and all(np.shape(x) == (2 * k + 1, n, n) for k, x in enumerate(res))
+        ctx.check(ok, 'cg/consumer/tensor-operator/structure', 'get_irreducible_tensor_operator(S) must list k=0..2S with arrays (2k+1,2S+1,2S+1)',
+                  lambda: {'S_double': S, 'got': [list(np.shape(x)) for x in res] if isinstance(res, list) else repr(type(res))})
+        if not ok:
+            return
+        T = [np.asarray(x, dtype=np.complex128) for x in res]
+        if not all(np.all(np.isfinite(x)) for x in T):
+            ctx.check(False, 'cg/consumer/tensor-operator/structure', 'non-finite tensor operator', {'S_double': S})
+            return
+        J = rs.angmom(S)
+        Jp, Jm, Jz = J[0] + 1j * J[1], J[0] - 1j * J[1], J[2]
+        tol = 1e-10 * n
+        e_z = e_l = e_a = e_c = 0.0
+        for k, Tk in enumerate(T):
+            for i in range(2 * k + 1):
+                q = k - i
+                e_z = max(e_z, float(np.abs(Jz @ Tk[i] - Tk[i] @ Jz - q * Tk[i]).max()))
+                up = -math.sqrt(k * (k + 1) - q * (q + 1)) * Tk[i - 1] if q < k else 0 * Tk[i]
+                dn = -math.sqrt(k * (k + 1) - q * (q - 1)) * Tk[i + 1] if q > -k else 0 * Tk[i]
+                e_l = max(e_l, float(np.abs(Jp @ Tk[i] - Tk[i] @ Jp - up).max()), float(np.abs(Jm @ Tk[i] - Tk[i] @ Jm - dn).max()))
+                e_a = max(e_a, float(np.abs(Tk[i].conj().T - (-1)**q * Tk[2 * k - i]).max()))
+                e_c = max(e_c, float(np.abs(casimir(J, Tk[i]) - k * (k + 1) * Tk[i]).max()))
+        case = {'S_double': S}
+        ctx.check(e_z <= tol, 'cg/consumer/tensor-operator/jz-weight', '[Jz, T^k_q] != q T^k_q', {**case, 'err': e_z})
+        ctx.check(e_c <= tol * n, 'cg/consumer/tensor-operator/rank', 'sum_a [J_a,[J_a,T^k_q]] != k(k+1) T^k_q (component not in the spin-k multiplet)', {**case, 'err': e_c})
+        ctx.check(e_l <= tol, 'cg/consumer/tensor-operator/ladder', '[J+-, T^k_q] != -sqrt(k(k+1)-q(q+-1)) T^k_{q+-1} (library phase convention)', {**case, 'err': e_l})
+        ctx.check(e_a <= tol, 'cg/consumer/tensor-operator/adjoint', 'T^k_q^dagger != (-1)^q T^k_{-q}', {**case, 'err': e_a})
+        allT = np.concatenate([x.reshape(x.shape[0], -1) for x in T], axis=0)
+        gram = allT.conj() @ allT.T
+        e_g = float(np.abs(gram - n * np.eye(n * n)).max())
+        ctx.check(e_g <= tol, 'cg/consumer/tensor-operator/orthogonality', 'Tr(T^k_q^dagger T^k\'_q\') != (2S+1) delta_kk\' delta_qq\'', {**case, 'err': e_g})
+        ctx.check(float(np.abs(T[0][0] - np.eye(n)).max()) <= tol, 'cg/consumer/tensor-operator/T00', 'T^0_0 is not the identity', case)
+
+    ctx.attach(M, 'get_irreducible_tensor_operator', post=post_tensor_op)
+
+    def post_herm_basis(c):
+        """(cz,cx,cy) resp. their concatenation: Hermitian, mutually orthogonal with Tr(B_i B_j) = S(S+1)(2S+1)/3 (1 with tag_norm: the
+        normalisation of the spin operators), identity direction first, cz[k] / the k-th blocks of cx, cy inside the spin-k multiplet,
+        and the k=1 block equal to +-(Jz, Jx, Jy) of the reference."""
+        if c.exc is not None:
+            return
+        try:
+            S = int(c.arg(0, 'S_double'))
+        except Exception:
+            return
+        if S < 1 or S > 12:
+            return
+        tag_norm, tag_stack = bool(c.arg(1, 'tag_norm', False)), bool(c.arg(2, 'tag_stack', False))
+        n = S + 1
+        nxy = S * (S + 1) // 2
+        res = c.result
+        case = {'S_double': S, 'tag_norm': tag_norm, 'tag_stack': tag_stack}
+        if tag_stack:
+            ok = np.shape(res) == (n * n, n, n)
+        else:
+            ok = isinstance(res, tuple) and len(res) == 3 and [np.shape(x) for x in res] == [(n, n, n), (nxy, n, n), (nxy, n, n)]
+        ctx.check(ok, 'cg/consumer/hermitian-basis/structure', 'get_irreducible_hermitian_matrix_basis must return (cz[2S+1], cx[S(2S+1)], cy[S(2S+1)]) or their concatenation', case)
+        if not ok:
+            return
+        B = np.asarray(res if tag_stack else np.concatenate([np.asarray(x) for x in res], axis=0), dtype=np.complex128)
+        if not np.all(np.isfinite(B)):
+            ctx.check(False, 'cg/consumer/hermitian-basis/structure', 'non-finite basis element', case)
+            return
+        cz, cx, cy = B[:n], B[n:n + nxy], B[n + nxy:]
+        tol = 1e-10 * n
+        ctx.check(float(np.abs(B - B.conj().transpose(0, 2, 1)).max()) <= tol, 'cg/consumer/hermitian-basis/hermitian', 'basis element not Hermitian', case)
+        norm2 = 1.0 if tag_norm else (S / 2) * (S / 2 + 1) * (S + 1) / 3
+        Bm = B.reshape(n * n, -1)
+        e_g = float(np.abs(Bm.conj() @ Bm.T - norm2 * np.eye(n * n)).max())
+        ctx.check(e_g <= tol * max(1.0, norm2), 'cg/consumer/hermitian-basis/orthogonal' + ('-normalised' if tag_norm else ''),
+                  'Tr(B_i B_j) != c delta_ij with c = 1 (tag_norm) or S(S+1)(2S+1)/3', {**case, 'err': e_g, 'c': norm2})
+        ctx.check(float(np.abs(cz[0] - cz[0][0, 0] * np.eye(n)).max()) <= tol, 'cg/consumer/hermitian-basis/identity-first', 'the first element is not a multiple of the identity', case)
+        J = rs.angmom(S)
+        e_c, p = 0.0, 0
+        for k in range(0, n):
+            blk = [cz[k]] + ([] if k == 0 else list(cx[p:p + k]) + list(cy[p:p + k]))
+            p += k if k else 0
+            for X in blk:
+                e_c = max(e_c, float(np.abs(casimir(J, X) - k * (k + 1) * X).max()))
+        ctx.check(e_c <= tol * n * max(1.0, math.sqrt(norm2)), 'cg/consumer/hermitian-basis/rank-blocks', 'an element listed for rank k is not in the spin-k multiplet', {**case, 'err': e_c})
+        sc = math.sqrt(norm2 / ((S / 2) * (S / 2 + 1) * (S + 1) / 3))
+        e1 = max(min(float(np.abs(X - sc * Ja).max()), float(np.abs(X + sc * Ja).max())) for X, Ja in ((cz[1], J[2]), (cx[0], J[0]), (cy[0], J[1])))
+        ctx.check(e1 <= tol * max(1.0, math.sqrt(norm2)), 'cg/consumer/hermitian-basis/rank1-is-angular-momentum', 'the rank-1 elements are not +-(Jz, Jx, Jy) (reference ladder operators)', {**case, 'err': e1})
+
+    ctx.attach(M, 'get_irreducible_hermitian_matrix_basis', post=post_herm_basis)
+
 
 # ============================================================================================ workloads
 PI = math.pi
 POLE_BETAS = [0.0, PI, 1e-9, PI - 1e-9, 1e-6, PI - 1e-6, 1e-4, PI - 1e-4]
 EXTRA_POLE_BETAS = [3e-8, PI - 3e-8, 5e-7, PI - 5e-7]      # inside / just outside the library threshold (thorough)
 GENERIC_BETAS = [PI / 7, PI / 2, 2.5]
+NEAR_BETAS = [3e-8, 5e-7, 2e-5, 3e-4, 1e-3, 1e-2]           # around zero_eps, around the monitor's pole zone, and the decade above it ('regime' shard)
 QUAD = [0.4, 2.0, 3.7, 5.5, 0.0, PI / 2, PI, 3 * PI / 2]   # one value per quadrant + the four quadrant boundaries
 QUAD_T = QUAD + [1.0, 2.8, 4.2, 6.0, 1e-9, PI - 1e-9, PI + 1e-9, 2 * PI - 1e-9]
 
@@ -696,7 +849,7 @@ def run(ctx, shard):
 
     def so3_case(R, tag, workload):
         R = np.asarray(R)
-        flat = R.reshape(-1, 3, 3).astype(np.float64)
+        flat = R.real.reshape(-1, 3, 3).astype(np.float64)
         nontriv = bool(np.abs(flat - np.eye(3)).max() > 1e-6)
         ctx.set_case({'op': 'so3', 'tag': tag, 'batch_shape': list(R.shape[:-2]), 'first': flat[0]})
         smp = None
@@ -711,7 +864,7 @@ def run(ctx, shard):
             back = lib('su2_to_so3', G.su2_to_so3, np.asarray(U))
             if back is not None and np.shape(back) == R.shape:
                 tol = _tol(rs.pole_distance(rs.polar_so3(flat))).reshape(R.shape[:-2])
-                err = _maxerr(back, R.astype(np.float64))
+                err = _maxerr(back, R.real.astype(np.float64))
                 ctx.check(bool(np.all(err <= tol)), 'so3_to_su2/roundtrip', 'su2_to_so3(so3_to_su2(R)) != R',
                           lambda: {'R': flat[int(np.argmax(err.reshape(-1)))], 'err': float(np.max(err))})
 
@@ -984,6 +1137,172 @@ def run(ctx, shard):
             for j2 in range(0, 11):
                 workbuf_angles(j2, f'workbuf rep={rep}')
 
+    # ---------------------------------------------------------------------------------------- regime (numerical / shape / option / lifecycle regimes)
+    elif name == 'regime':
+        def tilted(n, eps_choices, kinds=None):
+            """pole elements tilted away from the pole by exactly eps about a random axis in the xy plane."""
+            kinds = rng.integers(0, 2, size=n) if kinds is None else kinds
+            poles_u = np.stack([_pole_su2(int(k), float(t)) for k, t in zip(kinds, rng.uniform(-2 * PI, 4 * PI, size=n))])
+            eps = rng.choice(eps_choices, size=n)
+            tilt = np.stack([rs.su2_axis((math.cos(p), math.sin(p), 0.0), float(e)) for p, e in zip(rng.uniform(0, 2 * PI, size=n), eps)])
+            return tilt @ poles_u
+
+        # (a) betas between the library threshold and the generic regime, on both sides of zero_eps and of the monitor's pole zone
+        sub = rng.choice(al.size, size=6, replace=False)
+        for b0 in NEAR_BETAS:
+            for beta in (b0, PI - b0):
+                R, U = angle_consistency(al, np.full(al.shape, beta), ga, f'near-pole beta={beta!r}')
+                if R is None:
+                    continue
+                so3_case(R, f'near-pole batch beta={beta!r}', 'corner')
+                su2_case(U, f'near-pole batch beta={beta!r}', 'corner', irreps=(1, 2, 5, 10))
+                _, U2 = angle_consistency(al, np.full(al.shape, beta), ga + 2 * PI, f'near-pole beta={beta!r} gamma+2pi')
+                if U2 is not None:
+                    su2_case(U2, f'near-pole batch beta={beta!r} gamma+2pi', 'corner', irreps=(1, 3))
+                for i in sub:
+                    so3_case(R[i], f'near-pole beta={beta!r}', 'corner')
+                    su2_case(U[i], f'near-pole beta={beta!r}', 'corner', irreps=(1, 4))
+        for rep in range(6 if tier == 'quick' else 30):
+            n = 12
+            near = tilted(n, NEAR_BETAS + [1e-9, 1e-6])
+            U = _haar_su2(rng, n)
+            su2_case(near, 'tilted-pole batch', 'corner', irreps=(1, 2, int(rng.integers(3, 11))))
+            so3_case(rs.cover(near), 'tilted-pole batch', 'corner')
+            homomorphism(U, rs.dagger(U) @ near, [1, 2, int(rng.integers(3, 11))], 'haar x (inverse*tilted pole)', 'corner')
+            homomorphism(near, tilted(n, NEAR_BETAS), [1, int(rng.integers(2, 11))], 'tilted pole x tilted pole', 'corner')
+
+        # (a) exact objects known only up to rounding noise (dense, not symmetry preserving; inside the admissible 1e-12)
+        perms = np.stack(rs.signed_permutations_det1())
+        octa = np.stack(rs.binary_octahedral())
+        pole3 = np.stack([_pole_so3(k, t) for k in (0, 1) for t in (0.0, 0.4, 2.0, 3.7, 4.5, 5.5, PI, -1.0)])
+        pole2 = np.stack([_pole_su2(k, t) for k in (0, 1) for t in (0.0, 0.4, 2.0, 3.7, 4.5, 5.5, PI, 9.0, 4 * PI - 0.3)])
+        for noise in (1e-15, 1e-14, 5e-14):
+            for tag, X in (('signed-permutation', perms), ('direct-pole', pole3), ('haar', rs.cover(_haar_su2(rng, 8)))):
+                Xn = X + noise * rng.uniform(-1, 1, size=X.shape)
+                so3_case(Xn, f'{tag} + dense noise {noise:g} batch', 'corner')
+                for i in rng.choice(X.shape[0], size=4, replace=False):
+                    so3_case(Xn[i], f'{tag} + dense noise {noise:g}', 'corner')
+            for tag, X in (('binary-octahedral', octa), ('direct-pole', pole2), ('haar', _haar_su2(rng, 8))):
+                Xn = X + noise * (rng.uniform(-1, 1, size=X.shape) + 1j * rng.uniform(-1, 1, size=X.shape))
+                su2_case(Xn, f'{tag} + dense noise {noise:g} batch', 'corner', irreps=(1, 2, 7))
+                for i in rng.choice(X.shape[0], size=4, replace=False):
+                    su2_case(Xn[i], f'{tag} + dense noise {noise:g}', 'corner', irreps=(1, 3))
+        # products of many factors (accumulated rounding) that land exactly on a pole / on a cube element
+        for rep in range(4 if tier == 'quick' else 20):
+            V = _haar_su2(rng, 10)
+            acc_u = np.eye(2, dtype=np.complex128)
+            for v in V:
+                acc_u = acc_u @ v
+            for v in V[::-1]:
+                acc_u = acc_u @ rs.dagger(v)          # identity up to accumulated rounding
+            for tgt in (pole2[int(rng.integers(pole2.shape[0]))], octa[int(rng.integers(48))]):
+                su2_case(acc_u @ tgt, 'long product landing on a special element', 'corner', irreps=(1, 2, 9))
+                so3_case(rs.cover(acc_u) @ rs.cover(tgt), 'long product landing on a special element', 'corner')
+
+        # (a) angles far outside the principal ranges on the ANGLE entry of get_su2_irrep (beta outside [0,pi] included)
+        for j2 in range(0, 11):
+            for span in (20.0, 50.0):
+                a, b, g = rng.uniform(-span, span, size=(3, 10))
+                ctx.set_case({'op': 'irrep angle form, large angles', 'j2': j2, 'span': span})
+                ctx.case('irrep-large-angles', j2, a, b, g, nontrivial=j2 > 0)
+                ctx.workload('random')
+                lib('get_su2_irrep', G.get_su2_irrep, j2, a, b, g)
+                lib('get_su2_irrep', G.get_su2_irrep, j2, a + 2 * PI * rng.integers(-3, 4, size=10), b, g + 2 * PI * rng.integers(-3, 4, size=10), return_matd=True)
+                lib('get_su2_irrep', G.get_su2_irrep, j2, float(a[0]), float(b[0]) + 2 * PI, float(g[0]))
+                lib('get_su2_irrep', G.get_su2_irrep, np.int64(j2), a[:3], -b[:3], g[:3])
+
+        # (b) exactly ONE degenerate member in an otherwise generic batch (every position), and the converse
+        for k in (2, 3, 7):
+            for pos in sorted({0, k // 2, k - 1}):
+                for kind, eps in ((0, 0.0), (1, 0.0), (0, 1e-9), (1, 3e-8)):
+                    one = tilted(1, [eps], kinds=[kind])[0]
+                    batch = _haar_su2(rng, k)
+                    batch[pos] = one
+                    su2_case(batch, f'one degenerate member (kind={kind}, eps={eps:g}) at {pos} of {k}', 'corner', irreps=(1, 2))
+                    so3_case(rs.cover(batch), f'one degenerate member (kind={kind}, eps={eps:g}) at {pos} of {k}', 'corner')
+                    conv = tilted(k, [0.0, 1e-9])
+                    conv[pos] = _haar_su2(rng, 1)[0]
+                    su2_case(conv, f'one generic member at {pos} of {k} degenerate ones', 'corner', irreps=(1, 3))
+                    so3_case(rs.cover(conv), f'one generic member at {pos} of {k} degenerate ones', 'corner')
+
+        # (c) storage variants of one mixed batch: same values must give the same answers
+        for rep in range(2 if tier == 'quick' else 8):
+            n = 6
+            mixed_u = np.where((rng.random(n) < 0.5)[:, None, None], tilted(n, [0.0, 1e-9, 1e-4]), _haar_su2(rng, n))
+            mixed_u[0] = _pole_su2(1, float(rng.uniform(0, 4 * PI)))
+            mixed_r = rs.cover(mixed_u)
+            for base, case_f, kw in ((mixed_u, su2_case, {'irreps': (1, 2)}), (mixed_r, so3_case, {})):
+                d = base.shape[-1]
+                big = np.zeros((2 * n, d + 2, d + 3), dtype=base.dtype)
+                big[::2, 1:d + 1, 2:d + 2] = base
+                ro = base.copy()
+                ro.setflags(write=False)
+                variants = [('fortran-order', np.asfortranarray(base)), ('strided view', big[::2, 1:d + 1, 2:d + 2]), ('reversed view', base[::-1]),
+                            ('transposed storage', np.ascontiguousarray(np.swapaxes(base, -1, -2)).swapaxes(-1, -2)), ('read-only', ro),
+                            ('single from a strided view', big[2, 1:d + 1, 2:d + 2]), ('(n,1) batch', base.reshape(n, 1, d, d)), ('(1,n) batch', base.reshape(1, n, d, d))]
+                if d == 3:
+                    variants.append(('complex-typed rotation', base.astype(np.complex128)))
+                for vname, arr in variants:
+                    case_f(arr, f'storage variant: {vname}', 'corner', **kw)
+
+        # (d) the zero_eps option (positional and keyword) of the four converters
+        for ze in (1e-5, 1e-3, 1e-12):
+            for rep in range(2 if tier == 'quick' else 6):
+                n = 10
+                near_eps = [0.0, ze / 10, 3 * ze, 300 * ze] if ze >= 1e-7 else [0.0, 1e-6, 1e-4]
+                mixed_u = np.where((rng.random(n) < 0.6)[:, None, None], tilted(n, near_eps), _haar_su2(rng, n))
+                mixed_r = rs.cover(mixed_u)
+                ctx.set_case({'op': 'zero_eps option', 'zero_eps': ze, 'first': mixed_u[0]})
+                ctx.case('zero-eps', ze, mixed_u, nontrivial=True)
+                ctx.workload('corner')
+                for Rarg, Uarg in ((mixed_r, mixed_u), (mixed_r[0], mixed_u[0]), (mixed_r[1], mixed_u[1])):
+                    lib('so3_to_angle', G.so3_to_angle, Rarg, ze)
+                    lib('so3_to_angle', G.so3_to_angle, Rarg, zero_eps=ze)
+                    lib('su2_to_angle', G.su2_to_angle, Uarg, ze)
+                    lib('su2_to_angle', G.su2_to_angle, Uarg, zero_eps=ze)
+                    lib('su2_to_so3', G.su2_to_so3, Uarg, zero_eps=ze)
+                    V = lib('so3_to_su2', G.so3_to_su2, Rarg, ze)
+                    lib('so3_to_su2', G.so3_to_su2, Rarg, zero_eps=ze)
+                    if V is not None and np.shape(V) == np.shape(Uarg):
+                        back = lib('su2_to_so3', G.su2_to_so3, np.asarray(V), ze)
+                        if back is not None and np.shape(back) == np.shape(Rarg):
+                            tol = _tol(rs.pole_distance(rs.polar_so3(Rarg)), ze)
+                            err = _maxerr(back, Rarg)
+                            ctx.check(bool(np.all(err <= tol)), 'so3_to_su2/roundtrip', 'su2_to_so3(so3_to_su2(R)) != R', {'zero_eps': ze, 'err': float(np.max(err))})
+
+        # (d) return_matd=True on the MATRIX entry
+        for j2 in range(0, 11):
+            n = 8
+            mixed_u = np.where((rng.random(n) < 0.5)[:, None, None], tilted(n, [0.0, 1e-9, 1e-6, 1e-4, 1e-2]), _haar_su2(rng, n))
+            ctx.set_case({'op': 'irrep matrix form return_matd', 'j2': j2, 'first': mixed_u[0]})
+            ctx.case('irrep-matrix-matd', j2, mixed_u, nontrivial=j2 > 0)
+            ctx.workload('corner')
+            lib('get_su2_irrep', G.get_su2_irrep, j2, mixed_u, return_matd=True)
+            lib('get_su2_irrep', G.get_su2_irrep, j2, mixed_u.reshape(2, 4, 2, 2), return_matd=True)
+            for i in (0, 1):
+                lib('get_su2_irrep', G.get_su2_irrep, j2, mixed_u[i], return_matd=True)
+
+        # (e) the caller edits a returned array in place and calls again with the same arguments
+        for rep in range(1 if tier == 'quick' else 3):
+            n = 5
+            mixed_u = np.where((rng.random(n) < 0.5)[:, None, None], tilted(n, [0.0, 1e-9]), _haar_su2(rng, n))
+            mixed_r = rs.cover(mixed_u)
+            a, b, g = rng.uniform(0, 2 * PI, size=n), rng.choice([0.0, PI, 0.7, 2.0], size=n), rng.uniform(0, 4 * PI, size=n)
+            ctx.set_case({'op': 'edit the result in place, call again', 'first': mixed_u[0]})
+            ctx.case('edit-result', mixed_u, a, b, g, nontrivial=True)
+            ctx.workload('corner')
+            probes = [('angle_to_su2', G.angle_to_su2, (a, b, g), {}), ('angle_to_so3', G.angle_to_so3, (a, b, g), {}),
+                      ('su2_to_angle', G.su2_to_angle, (mixed_u,), {}), ('so3_to_angle', G.so3_to_angle, (mixed_r,), {}),
+                      ('su2_to_so3', G.su2_to_so3, (mixed_u,), {}), ('so3_to_su2', G.so3_to_su2, (mixed_r,), {})]
+            for j2 in (0, 1, 2, 5, 10):
+                probes += [('get_su2_irrep', G.get_su2_irrep, (j2, mixed_u), {}), ('get_su2_irrep', G.get_su2_irrep, (j2, mixed_u), {'return_matd': True}),
+                           ('get_su2_irrep', G.get_su2_irrep, (j2, a, b, g), {'return_matd': True}), ('get_su2_irrep', G.get_su2_irrep, (j2, mixed_u[0]), {}),
+                           ('get_angular_momentum_op', MS.get_angular_momentum_op, (j2,), {})]
+            for key, f, args, kw in probes:
+                with ctx.guard(key):
+                    ctx.history_probe(key, f, *args, **kw)
+                ctx.hit('history@result-edited-then-called-again')
+
     # ---------------------------------------------------------------------------------------- cube (exhaustive finite subgroups)
     elif name == 'cube':
         perms = rs.signed_permutations_det1()
@@ -1136,6 +1455,8 @@ def run(ctx, shard):
                 lib('get_angular_momentum_op', MS.get_angular_momentum_op, j2)
             smax = 8 if tier == 'quick' else 12
             pairs = [(a, s - a) for s in range(0, smax + 1) for a in range(0, s + 1)]
+            if tier == 'quick':
+                pairs += [(a, 12 - a) for a in range(0, 13)]   # the boundary j1+j2=6 of the quantified range (all of it in thorough)
             wl = 'exhaustive'
         else:
             pairs = [(a, s - a) for s in (13, 14, 16) for a in range(0, s + 1, 2)]
@@ -1155,12 +1476,36 @@ def run(ctx, shard):
                     good = good and Ja == Jb and np.shape(Ca) == np.shape(np.transpose(Cb, (0, 2, 1))) and np.abs(np.asarray(Ca) - sgn * np.transpose(Cb, (0, 2, 1))).max() <= 1e-10
                 ctx.check(good, 'cg/exchange-symmetry', 'C(j1 m1 j2 m2|JM) != (-1)^(j1+j2-J) C(j2 m2 j1 m1|JM)', {'j1d': j1d, 'j2d': j2d})
         if name == 'angmom-cg':
-            # the library's own consumers of the CG table (realistic): irreducible tensor operators / Hermitian bases
-            for S in range(1, 5 if tier == 'quick' else 8):
+            # integer types other than the Python int
+            for (x, y) in ((np.int64(3), np.int64(2)), (np.int32(2), 5), (4, np.int64(4))):
+                ctx.set_case({'op': 'clebsch-gordan numpy integer arguments', 'j1d': int(x), 'j2d': int(y)})
+                lib('get_clebsch_gordan_coeffient', MS.get_clebsch_gordan_coeffient, x, y)
+                lib('get_angular_momentum_op', MS.get_angular_momentum_op, x)
+            # the library's own consumers of the CG table (realistic): irreducible tensor operators / Hermitian bases, every option
+            for S in range(1, 7 if tier == 'quick' else 11):
                 ctx.set_case({'op': 'irreducible tensor operator', 'S_double': S})
                 ctx.case('tensor-op', S, nontrivial=True)
                 ctx.workload('realistic')
                 T = lib('get_irreducible_tensor_operator', MS.get_irreducible_tensor_operator, S)
+                for tn in (False, True):
+                    for ts in (False, True):
+                        lib('get_irreducible_hermitian_matrix_basis', MS.get_irreducible_hermitian_matrix_basis, S, tag_norm=tn, tag_stack=ts)
+                lib('get_irreducible_hermitian_matrix_basis', MS.get_irreducible_hermitian_matrix_basis, S)
+                lib('get_irreducible_hermitian_matrix_basis', MS.get_irreducible_hermitian_matrix_basis, S, True, True)
+                # lifecycle: the consumers' results edited in place by the caller, then everything asked again (the table they are built from included)
+                for key, f, args, kw in (('get_irreducible_tensor_operator', MS.get_irreducible_tensor_operator, (S,), {}),
+                                         ('get_irreducible_hermitian_matrix_basis', MS.get_irreducible_hermitian_matrix_basis, (S,), {'tag_norm': True}),
+                                         ('get_irreducible_hermitian_matrix_basis', MS.get_irreducible_hermitian_matrix_basis, (S,), {'tag_stack': True})):
+                    with ctx.guard(key):
+                        ctx.history_probe(key, f, *args, **kw)
+                    ctx.hit('history@result-edited-then-called-again')
+                lib('get_clebsch_gordan_coeffient', MS.get_clebsch_gordan_coeffient, S, S)
+                if CG_TABLE_EDITED_BY_CALLER:
+                    with ctx.guard('get_clebsch_gordan_coeffient'):
+                        ctx.history_probe('get_clebsch_gordan_coeffient', MS.get_clebsch_gordan_coeffient, S, S)
+                    lib('get_irreducible_tensor_operator', MS.get_irreducible_tensor_operator, S)
+                    M_ = numqi.matrix_space._clebsch_gordan
+                    ctx.orig(M_._get_clebsch_gordan_coeffient_cache).cache_clear()   # do not let the edited table leak into the following cases
                 B = lib('get_irreducible_hermitian_matrix_basis', MS.get_irreducible_hermitian_matrix_basis, S, tag_norm=True, tag_stack=True)
                 if B is not None and np.shape(B) == ((S + 1)**2, S + 1, S + 1):
                     Bm = np.asarray(B).reshape((S + 1)**2, -1)
